@@ -139,6 +139,10 @@ class Gen(object):
     self.tags.add('combine')
     r = self.r
     fn = r.choice([a for a, at in AGG_EXPR if at == t])
+    if r.random() < 0.12:
+      # an aggregating expression without a body aggregates the one value of its expression
+      self.tags.add('combine-without-body')
+      return '%s{%s}' % (fn, self.expr('N', env, min(d, 1)))
     inner = dict(env)
     w = self.var()
     with_n = [p for p in self.preds if [c for c, ct in p[1].items() if ct == 'N']]
